@@ -353,6 +353,71 @@ class Sym:
         self._walk(entry, env0, Path(), set(), out, max_paths, stop_at or set())
         return out
 
+    def _unwrap_or_diamond(self, env, p, bb, d, t):
+        """join block of an unwrap_or-shaped diamond on discriminant d (after assigning the joined local), else None"""
+        if d[0] != "discr" or d not in self.enums:
+            return None
+        names = self.enums[d][1]
+        kinds = set(names.values())
+        if kinds == {"None", "Some"}:
+            good, bad, fn = "Some", "None", "core::option::Option::<T>::unwrap_or"
+        elif kinds == {"Ok", "Err"}:
+            good, bad, fn = "Ok", "Err", "core::result::Result::<T, E>::unwrap_or"
+        else:
+            return None
+        blocks = self.b.blocks
+        arms = {}
+        for v, b2 in t["targets"]:
+            if names.get(v) in (good, bad):
+                arms[names[v]] = b2
+        ob = blocks[t["otherwise"]]
+        if ob["term"]["t"] != "unreachable":
+            # `otherwise` may be the second arm
+            missing = [k_ for k_ in (good, bad) if k_ not in arms]
+            if len(missing) == 1:
+                arms[missing[0]] = t["otherwise"]
+            else:
+                return None
+        if set(arms) != {good, bad} or arms[good] == arms[bad]:
+            return None
+        X = d[1]
+        payload = ("field", ("variant", X, good), 0)
+
+        def run_arm(bi):
+            blk = blocks[bi]
+            if blk["term"]["t"] != "goto":
+                return None
+            e2 = self._fork(env)
+            assigned = []
+            for s_ in blk["stmts"]:
+                if "dst" not in s_ or s_["rv"] == "set_discr":
+                    continue
+                if "p" in s_["dst"]:
+                    return None  # a store through a place: not a pure value arm
+                if s_["rv"] not in ("use", "cast", "copy_for_deref"):
+                    return None
+                val = self.rvalue(e2, s_)
+                e2["locals"][s_["dst"]["l"]] = val
+                assigned.append(s_["dst"]["l"])
+            return blk["term"]["target"], e2, assigned
+
+        ra, rb = run_arm(arms[good]), run_arm(arms[bad])
+        if ra is None or rb is None or ra[0] != rb[0] or not ra[2] or not rb[2]:
+            return None
+        # the local that survives is the last one assigned in both arms
+        r = ra[2][-1]
+        if rb[2][-1] != r:
+            return None
+        va, vb = ra[1]["locals"][r], rb[1]["locals"][r]
+        strip = lambda e: e[3] if (e[0] == "cast" and False) else e
+        if strip(va) != payload:
+            return None
+        if _mentions(vb, X):
+            return None
+        # temporaries assigned in the arms must not be live afterwards except r: only accept arms assigning r and temps that feed it
+        env["locals"][r] = ("call", bb, fn, (X, vb))
+        return ra[0]
+
     def _enum_eq(self, d):
         """(discriminant expression, variant discriminant, is `!=`, (enum path, {discr: name})) if d is `a == E::V` / `a != E::V` through
         the built-in derived PartialEq of a field-less enum E, else None"""
@@ -492,6 +557,12 @@ class Sym:
                             tgt = b2
                     bb = tgt
                     continue
+                # `match opt { Some(v) => v, None => K }` (and the Result analogue) is `opt.unwrap_or(K)`: a two-armed diamond whose arms
+                # only assign the same local and rejoin is folded into that call, so both spellings give the same expression
+                dj = self._unwrap_or_diamond(env, p, bb, d, t)
+                if dj is not None:
+                    bb = dj
+                    continue
                 # `x == Enum::Variant` / `x != ..` through the derived PartialEq of a field-less enum is a discriminant test:
                 # record it as one, so that `match`, `matches!`, `if let` and `==` spellings give the same decisions
                 eqd = self._enum_eq(d) if vals == [0] else None
@@ -551,6 +622,14 @@ class Sym:
                 return
             self._finish(p, env, "unknown:" + k, out, max_paths)
             return
+
+
+def _mentions(e, x):
+    if e == x:
+        return True
+    if isinstance(e, tuple):
+        return any(_mentions(y, x) for y in e if isinstance(y, tuple))
+    return False
 
 
 def _is_pure_lv(lv):
